@@ -243,6 +243,11 @@ class Ctx:
         ):
             axs = set(a.strip() for a in (m.group(3) or "").replace("\n", " ").split(",") if a.strip())
             found[m.group(1).split(".")[-1]] = axs
+        if self.tier == "thorough":
+            # independent re-check of the compiled module by leanchecker (replays every declaration through the kernel)
+            with Lake():
+                rc2, out2 = run(["lake", "env", "leanchecker", module], cwd=LEAN_DIR, timeout=1800)
+            self.obligation("leanchecker " + module, "recheck", rc2 == 0, out2[-800:])
         for n in names:
             short = n.split(".")[-1]
             if short not in found:
